@@ -46,6 +46,16 @@ CHECKS = {
         "are tied to /repo by replaying the specification's LFSR runs through the real checksum engines, and the decoders by "
         "enumerating single/double/hrp corruptions of representative addresses through every parsing entry point.",
    note="GF(32) XOR by table; linearity of the code; representative addresses rather than all addresses for the decoder binding."),
+ "C08": dict(
+   cat="model_checking", design="§4 C08",
+   technique="TLA+ model of the PSET view: BIP370 lock-time rule (declarative) vs the input-by-input lattice fold, and an action "
+             "machine of updater/signer/finalizer steps; TLC checks both; all lock-time assignments and all short histories are "
+             "emitted and replayed on real PSETs; long random histories are trace-validated",
+   text="TLC shows that the fold the code performs equals the declarative BIP370 rule for every assignment to 0..3 inputs and every "
+        "fallback, and that non-identifying additions never change the identifying data; every such assignment and every action "
+        "sequence up to the bound is replayed on a real PSET comparing locktime(), unique_id() and extract_tx() per step, and random "
+        "long histories of the real object are validated step by step against the specification.",
+   note="field contents sampled; the unique id is compared for (in)equality with the initial one, its value is tied to the txid by C02."),
 }
 NA_PENDING = "check not built yet in this round (planned, see DESIGN.md §4)"
 
